@@ -430,8 +430,6 @@ func radfg(ido, ip, l1, idl1 int, cc, c1, c2, ch, ch2, wa []float64) {
 	ch2m := newTwoArray(idl1, ip, ch2)
 
 	arg := 2 * math.Pi / float64(ip)
-	dcp := math.Cos(arg)
-	dsp := math.Sin(arg)
 	ipph := (ip + 1) / 2
 	nbd := (ido - 1) / 2
 
@@ -503,13 +501,12 @@ func radfg(ido, ip, l1, idl1 int, cc, c1, c2, ch, ch2, wa []float64) {
 			c13.set(0, k, jc, ch3.at(0, k, jc)-ch3.at(0, k, j))
 		}
 	}
-	ar1 := 1.0
-	ai1 := 0.0
 	for l := 1; l < ipph; l++ {
 		lc := ip - l
-		ar1h := dcp*ar1 - dsp*ai1
-		ai1 = dcp*ai1 + dsp*ar1
-		ar1 = ar1h
+		// Evaluate the l-th root of unity directly: it is the rotation
+		// of the recurrence over j below, so obtaining it by a
+		// recurrence as well lets the error grow like ip^2.
+		ai1, ar1 := math.Sincos(float64(l) * arg)
 		for ik := 0; ik < idl1; ik++ {
 			ch2m.set(ik, l, c2m.at(ik, 0)+ar1*c2m.at(ik, 1))
 			ch2m.set(ik, lc, ai1*c2m.at(ik, ip-1))
@@ -920,8 +917,6 @@ func radbg(ido, ip, l1, idl1 int, cc, c1, c2, ch, ch2, wa []float64) {
 	ch2m := newTwoArray(idl1, ip, ch2)
 
 	arg := 2 * math.Pi / float64(ip)
-	dcp := math.Cos(arg)
-	dsp := math.Sin(arg)
 	ipph := (ip + 1) / 2
 	nbd := (ido - 1) / 2
 
@@ -976,13 +971,12 @@ func radbg(ido, ip, l1, idl1 int, cc, c1, c2, ch, ch2, wa []float64) {
 		}
 	}
 
-	ar1 := 1.0
-	ai1 := 0.0
 	for l := 1; l < ipph; l++ {
 		lc := ip - l
-		ar1h := dcp*ar1 - dsp*ai1
-		ai1 = dcp*ai1 + dsp*ar1
-		ar1 = ar1h
+		// Evaluate the l-th root of unity directly: it is the rotation
+		// of the recurrence over j below, so obtaining it by a
+		// recurrence as well lets the error grow like ip^2.
+		ai1, ar1 := math.Sincos(float64(l) * arg)
 		for ik := 0; ik < idl1; ik++ {
 			c2m.set(ik, l, ch2m.at(ik, 0)+ar1*ch2m.at(ik, 1))
 			c2m.set(ik, lc, ai1*ch2m.at(ik, ip-1))
